@@ -116,10 +116,18 @@ def enumerate_graphs(max_groups, max_tasks, max_streams):
                             if nt + ns == 0:
                                 continue  # P1
                             for streams in itertools.product(stream_kinds, repeat=ns):
-                                yield {"parents": parents,
-                                       "tasks": [{"groups": list(g), "outcome": o, "gated": gt}
-                                                 for g, (o, gt) in zip(task_groups, task_out)],
-                                       "streams": list(streams)}
+                                spec = {"parents": parents,
+                                        "tasks": [{"groups": list(g), "outcome": o, "gated": gt}
+                                                  for g, (o, gt) in zip(task_groups, task_out)],
+                                        "streams": list(streams)}
+                                yield spec
+                                if ns == 0 and any(len(g) >= 2 for g in task_groups):
+                                    # an execution group shared by fragments at different path depths: the
+                                    # publisher then has to choose the id and sub-path of the delivery
+                                    for depths in itertools.product((0, 1), repeat=ng):
+                                        if any(depths) and all(p is None or depths[p] <= depths[i]
+                                                               for i, p in enumerate(parents)):
+                                            yield dict(spec, depths=list(depths))
 
 
 def run_graph(spec, schedule):
@@ -136,11 +144,19 @@ def run_graph(spec, schedule):
     from vkit.harness.sched import Sched
 
     sched = Sched(schedule, max_steps=400)
+    depths = spec.get("depths") or [0] * len(spec["parents"])
+
+    def path_of(depth):
+        path = None
+        for _ in range(depth):
+            path = Path(path, "k", None)
+        return path
+
     groups = []
     for i, p in enumerate(spec["parents"]):
-        groups.append(DeliveryGroup(None, f"G{i}", groups[p] if p is not None else None))
+        groups.append(DeliveryGroup(path_of(depths[i]), f"G{i}", groups[p] if p is not None else None))
     starts = {}
-    data = {}
+    data = {"k": {"k": {}}} if any(depths) else {}
 
     class HQueue:
         def __init__(self, name, kind):
@@ -176,12 +192,14 @@ def run_graph(spec, schedule):
                 raise RuntimeError(f"{name} failed")
             work = None
             if outcome == "nested-group":
-                child = DeliveryGroup(None, f"N{name}", tgroups[0])
+                child = DeliveryGroup(tgroups[0].path, f"N{name}", tgroups[0])
                 sub = mk_task(name + "c", [child], "ok", False)
                 work = Work([child], [sub], [])
             elif outcome == "nested-stream":
                 work = Work([], [], [mk_stream("n" + name, {"batches": [1], "end": "stop"})])
-            return WorkResult(ExecutionGroupValue(tgroups, [], {"v" + name: 1}), work)
+            # the fields of a shared execution group live at the deepest of its fragments' paths
+            vpath = max((g.path.as_list() if g.path else [] for g in tgroups), key=len)
+            return WorkResult(ExecutionGroupValue(tgroups, vpath, {"v" + name: 1}), work)
 
         def fn():
             starts[name] = starts.get(name, 0) + 1
@@ -221,7 +239,7 @@ def run_graph(spec, schedule):
         while q is not None:
             a.add(f"G{q}")
             q = spec["parents"][q]
-        nesting[f"G{i}"] = {lab: {()} for lab in a}  # all groups of the direct drive live at the root path
+        nesting[f"G{i}"] = {lab: {("k",) * (depths[i] - depths[int(lab[1:])])} for lab in a}
     asm = Assembler(nesting)
     out = {"end": None}
 
